@@ -41,6 +41,12 @@ type LexRun struct {
 	End   string   `json:"end"`
 	PR    []int32  `json:"pr,omitempty"`
 	NPush int      `json:"npush"`
+	// Resets: calls of Reset() by the driver; ResetDirty: how many of them left
+	// the machine outside the default mode or with a non-empty mode stack
+	// (read through the tap right after the call; -1 when there is no tap).
+	Resets     int `json:"resets,omitempty"`
+	ResetDirty int `json:"reset_dirty,omitempty"`
+	DirtyDepth int `json:"dirty_depth,omitempty"`
 }
 
 type LexRes struct {
@@ -56,6 +62,7 @@ type wrapSM struct {
 	idle  int
 	seen  map[string]int
 	yield func()
+	resets, resetDirty, dirtyDepth int
 }
 
 func (w *wrapSM) PushRune(r rune) int {
@@ -106,7 +113,18 @@ func (w *wrapSM) PushRune(r rune) int {
 }
 
 func (w *wrapSM) Token() int { return w.inner.Token() }
-func (w *wrapSM) Reset()     { w.inner.Reset() }
+func (w *wrapSM) Reset() {
+	w.inner.Reset()
+	w.resets++
+	if w.tap != nil {
+		if cfg := w.tap(); cfg.Mode != 0 || len(cfg.Stack) != 0 {
+			w.resetDirty++
+			if len(cfg.Stack) > w.dirtyDepth {
+				w.dirtyDepth = len(cfg.Stack)
+			}
+		}
+	}
+}
 
 func runLex(e *LexEntry, input []byte, rec bool, maxTok int) (run LexRun) {
 	return runLexWith(e, input, rec, maxTok, nil)
@@ -132,6 +150,7 @@ func runLexWith(e *LexEntry, input []byte, rec bool, maxTok int, yield func()) (
 		}
 		run.PR = w.pr
 		run.NPush = w.calls
+		run.Resets, run.ResetDirty, run.DirtyDepth = w.resets, w.resetDirty, w.dirtyDepth
 	}()
 	fset := gotoken.NewFileSet()
 	file := fset.AddFile("input", -1, len(input))
